@@ -70,7 +70,7 @@ CONFIG = {
     "nontrivial": lambda op, impl: True,
     "trusted": COMMON_TRUSTED + [
         "event-shape facts of the abstract records are read off the concrete events by the accessor models of VModel.Event / VModel.Auth (validated by C07/C09 and by this correspondence)",
-        "Allowed(event, state) enters the handler models as an oracle bit (C07); the driver instantiates it with VModel.Auth.allowedFresh",
+        "Allowed(event, state) enters the handler models as an oracle bit (C07); the driver instantiates it with VModel.Auth.allowedFresh, and VProps/C15Compose.lean proves the composed statements (the template passes the C07 model on the supplied state, which is of one room; the one verifier request of send_join / invite was reported valid)",
         "ed25519 / VerifyJSON (used by the harness to check the returned signature)",
         "VModel.Signers.verifyPseudo (C06) as the model of VerifyEventSignatures under JSONVerifierSelf in the PerformInvite ops"],
     "assumptions": [
